@@ -217,8 +217,11 @@ def f_self_reference(m, gen, rng):
     b, ln = rng.choice(all_lines(m2))
     me = ("var", ln["name"])
     e = ln["expr"]
+    # a relation-valued definition (ind = Gt(et, 3)) is compared as the number it stands for: Gt(Gt(et, 3), 0) is refused by sympy
+    # with a TypeError of its own, whatever else the text contains
+    e_num = ("bin", "+", e, ("num", "0")) if e[0] in ("rel", "not", "and", "or") else e
     ln["expr"] = rng.choice([("bin", "+", ("bin", "*", me, ("num", "0.5")), e),
-                             ("cond", ("rel", "Gt", e, ("num", "0")), e, ("bin", "/", me, ("num", "2"))),
+                             ("cond", ("rel", "Gt", e_num, ("num", "0")), e, ("bin", "/", me, ("num", "2"))),
                              ("bin", "-", e, me)])
     return m2, "Cycle", {"name": ln["name"]}
 
@@ -348,14 +351,22 @@ def main(argv=None):
             continue
         if ecs and ecs[0][2] != tk:
             continue       # the text was accepted, but not as one right-hand side made of these tokens
-        _, _, lerr, _ = impl.load_text(text2)          # the real loader decides (it also refuses atan(x, x), Lt(x), ...)
-        if lerr is not None and lerr not in ("MissingSymbol",):
-            want = "none"
-        elif not ecs or ecs[0][3] is None:
-            rep.count("syntax_fault:accepted_call_shape_outside_the_model")    # e.g. log(x, base)
-            continue
-        else:
+        _, _, lerr, _ = impl.load_text(text2)
+        if ecs and ecs[0][3] is not None:
+            # Lark reads the text as one right-hand side made of these tokens: the tree is the reference. The loader may still
+            # refuse the expression for a reason outside the grammar (sympy: -Ge(x, 1) "Relational cannot be used in Mul",
+            # ContinuousConditional on a relation sympy decides) - counted, not judged here
             want = ecs[0][3]
+            if lerr is not None and lerr != "MissingSymbol":
+                rep.count("syntax_fault:parsed_but_refused_while_building:" + str(lerr))
+        elif ecs:
+            rep.count("syntax_fault:accepted_call_shape_outside_the_model")    # e.g. log(x, base), atan(x, x), Lt(x)
+            continue
+        elif lerr is not None and lerr != "MissingSymbol":
+            want = "none"
+        else:
+            rep.count("syntax_fault:accepted_but_not_as_this_right_hand_side")
+            continue
         cases.append((how, mutated, tk, want))
     res = drv.ask(["parsestr", [[core.Q(mutated), want, tk] for _, mutated, tk, want in cases]])["results"]
     for (how, mutated, tk, want), r in zip(cases, res):
